@@ -23,10 +23,11 @@ const (
 	sfFlip
 	sfReadErr
 	sfWriteErr
+	sfSplice
 	nStreamFaults
 )
 
-var sfNames = [...]string{"truncate", "drop-chunk", "duplicate-chunk", "swap-chunks", "flip-byte", "reader-error", "writer-error"}
+var sfNames = [...]string{"truncate", "drop-chunk", "duplicate-chunk", "swap-chunks", "flip-byte", "reader-error", "writer-error", "splice-from-other-document"}
 
 // markupPos picks a position biased to just after markup characters / inside tokens.
 func markupPos(tape *sim.Tape, b []byte) int {
@@ -152,6 +153,27 @@ func c10Case(env *Env, tape *sim.Tape) *CaseOut {
 			readErrAt = tape.Draw(len(data) + 1)
 		case sfWriteErr:
 			writeErrAt = tape.Draw(64)
+		case sfSplice:
+			// a piece of another document of the same type lands in this stream (two
+			// responses mixed up by a transport): constructs meet that no single test has
+			other := env.Corpus[tape.Draw(len(env.Corpus))]
+			for tries := 0; tries < 8 && other.MT != doc.MT; tries++ {
+				other = env.Corpus[tape.Draw(len(env.Corpus))]
+			}
+			if other.MT == doc.MT && len(other.Data) > 0 && len(other.Data) < 1<<16 {
+				a := markupPos(tape, other.Data)
+				l := 1 + tape.Draw(96)
+				if a+l > len(other.Data) {
+					l = len(other.Data) - a
+				}
+				at := markupPos(tape, data)
+				if at > len(data) {
+					at = len(data)
+				}
+				nd := append([]byte(nil), data[:at]...)
+				nd = append(nd, other.Data[a:a+l]...)
+				data = append(nd, data[at:]...)
+			}
 		default:
 			data = applyStreamFault(tape, k, data)
 		}
